@@ -545,8 +545,8 @@ def run(tier):
 
     ck = Check("C12", tier)
     ck.assumptions += ASSUMPTIONS
-    br = common.build("C12", models=("compose",))
-    ck.proofs(br)
+    br = common.build("C12", models=("compose", "rules"), extra_targets=("theories/Properties/C12rules.vo",))
+    ck.proofs(br, extra_files=("C12rules",))
     if not br.ok:
         return ck.finish()
     m = Model("compose")
@@ -649,6 +649,14 @@ def run(tier):
     scripted_rule_runs(ck, m, impl, parsed_for_model, rng, quick)
     check_sdl_rules(ck, rng, quick, t0 + budget)
     ck.samples.append({"document": SEEDS[2], "checks": "alone/together, subsets, max_errors, metamorphic variants, twice, snapshots"})
+    if br.ok:
+        # twelve concrete schema-independent rules: extracted model vs the real rules alone and inside validate()
+        from . import crules
+        rule0 = ck.rule
+        ck.assumptions += crules.ASSUMPTIONS
+        crules.core(ck, tier, True, budget_s=20 if quick else 200)
+        ck.extra["rules_rule"] = ck.rule
+        ck.rule = rule0 + " (concrete rules) see coverage.rules_rule"
     return ck.finish()
 
 
